@@ -14,7 +14,7 @@ def conservation_goal(outs, ins, extra=None):
     d = tot - tin
     return z3.Or(d > bound, d < -bound), d
 
-def job_kick_row(res, n, nb, it, axis, b, r, margin, kmax):
+def job_kick_row(res, n, nb, it, axis, b, r, margin, kmax, sparse=False):
     """generic kick: row r of bunch b gets a symbolic displacement off in [-kmax, kmax] (integer part case-split, fraction real) and symbolic
     data supported >= margin cells from both borders; all other rows keep the concrete random values of the snapshot."""
     bld = maps_build(); mod = load_module(bld, MAPS_MODS)
@@ -30,8 +30,11 @@ def job_kick_row(res, n, nb, it, axis, b, r, margin, kmax):
     def cell(i): return R['data_in'] + 4 * (b * n * n + (r * n + i if axis else i * n + r))
     def ocell(i): return R['data_out'] + 4 * (b * n * n + (r * n + i if axis else i * n + r))
     ins = []
+    if sparse:      # a grid beyond the default size (blocked loops, tails): the whole grid zero, the row symbolic on cells around the block boundaries only
+        ex.max_ins = 600_000_000; ex.int_range = (-64, n + 64); ex.write_bytes(st, R['data_in'], bytes(4 * nb * n * n))
+        lines = {v for v in (margin, margin + 1, n // 2, 126, 127, 128, 129, 254, 255, 256, 257, 258, n - margin - 2, n - margin - 1) if margin <= v < n - margin}
     for i in range(n):
-        if margin <= i < n - margin:
+        if margin <= i < n - margin and (not sparse or i in lines):
             v = z3.Real('d%d' % i); st.pc += [v >= -1, v <= 1]; st.sym[cell(i)] = (4, 'f', v); ins.append(v)
         else:
             ex.write_bytes(st, cell(i), bytes(4))
@@ -40,7 +43,10 @@ def job_kick_row(res, n, nb, it, axis, b, r, margin, kmax):
         outs = [ex.dom.z(ex.load(s, ocell(i), F32)) for i in range(n)]
         goal, d = conservation_goal(outs, ins)
         def cex(m, s=s):
-            return {'replay': 'kick', 'n': n, 'nb': nb, 'it': it, 'axis': axis, 'bunch': b, 'row': r, 'off': mval(m, o), 'offall': offvals, 'row_data': [0.0] * margin + [mval(m, v) for v in ins] + [0.0] * margin, 'defect': mval(m, d)}
+            rd = [0.0] * n; k = 0
+            for i in range(n):
+                if margin <= i < n - margin and (not sparse or i in lines): rd[i] = mval(m, ins[k]); k += 1
+            return {'replay': 'kick', 'n': n, 'nb': nb, 'it': it, 'axis': axis, 'bunch': b, 'row': r, 'off': mval(m, o), 'offall': offvals, 'row_data': rd, 'defect': mval(m, d), 'sparse': sparse}
         kcase = [str(c) for c in s.pc if 'off' in str(c)][-1:]
         prove(res, 'generic %s-kick n=%d nb=%d it=%d bunch %d row %d case %s: |sum out - sum in| <= 2e-6*sum|in|' % ('y' if axis else 'x', n, nb, it, b, r, kcase),
               s.pc, goal, key='kick-conservation', cex_fn=cex)
@@ -212,6 +218,7 @@ def main(tier):
             for (b, r) in rows(n, nb):
                 if (b, r) in seen: continue
                 seen.add((b, r)); jobs.append((job_kick_row, (n, nb, it, axis, b, r, margin, kmax)))
+    if tier != 'quick': jobs += [(job_kick_row, (260, 1, it, axis, 0, r, 4, 2, True)) for it in (2, 4) for axis in (0, 1) for r in (0, 128, 256, 259)]
     jobs += [(job_fixed_kick, a) for a in fixed] + [(job_fp, a) for a in fps] + [(job_identity, a) for a in ids]
     jobs += [(job_target_overwritten, (w, n_, nb_, it_)) for w in ('kmx', 'kmy', 'rflin', 'drift', 'fpm', 'idm') for (n_, nb_, it_) in (((8, 2, 4), (9, 1, 2)) if tier == 'quick' else ((8, 2, 4), (9, 1, 2), (10, 2, 3), (7, 3, 1)))]
     chk.bounds = {'generic kick': 'grids %s, bunches 1-2, 1-4 interpolation points, both axes; one row at a time with symbolic displacement |off| <= kmax (integer part case-split by the solver, fraction real) and symbolic data >= 3 cells from the border; other rows concrete' % sorted({c[0] for c in kcfg}),
